@@ -29,7 +29,9 @@ pub enum Op {
     Unsub(u32),
     /// create an iterator, take up to `take` items (None: until it ends), call next() `extra`
     /// more times after the end, then drop it
-    Iter { id: u32, take: Option<usize>, extra: usize },
+    Iter { id: u32, take: Option<usize>, extra: usize, signal: bool },
+    /// take one token from a gate (wait for it)
+    PassGate(u8),
     ClientThunk(u32),
     ClientTask(u32),
     AddReducer(u32),
@@ -204,10 +206,17 @@ fn exec(ctx: &Arc<Ctx>, si: usize, op: &Op) {
                 note("unsub_missing", *id as i64, 0);
             }
         }
-        Op::Iter { id, take, extra } => {
+        Op::PassGate(g) => {
+            ctx.gates[*g as usize].pass();
+            note("passed_gate", *g as i64, 0);
+        }
+        Op::Iter { id, take, extra, signal } => {
             log(Ev::Call { op: "iter", a: *id as i64 });
             let mut it = store.iter();
             log(Ev::Ret { op: "iter", a: *id as i64, ok: true, st: vec![] });
+            if *signal {
+                ctx.gates[2].open(1);
+            }
             let mut n = 0usize;
             let mut ended = false;
             loop {
